@@ -240,6 +240,7 @@ long vh_syscall(long nr, ...){
 #undef pthread_sigmask
 int vh_pthread_sigmask(int how, const sigset_t *set, sigset_t *old){
 	if(me<0) return pthread_sigmask(how,set,old);
+	if(!noyield){ yield_point(0); printf("%d sigmask %d\n", me, how); }      /* a signal can still arrive right before the mask changes */
 	if(old) *old=T[me].mask;
 	if(set){ if(how==SIG_SETMASK) T[me].mask=*set; else for(int s=1;s<32;s++) if(sigismember(set,s)){ if(how==SIG_BLOCK) sigaddset(&T[me].mask,s); else sigdelset(&T[me].mask,s); } }
 	T[me].masked = sigismember(&T[me].mask,SIGUSR1);
